@@ -40,12 +40,17 @@ def evaluate_parallel(mod, cases, nproc=NPROC):
     n = max(1, min(nproc, (len(cases) + 7) // 8))
     if n == 1:
         return mod.evaluate(cases)
-    size = (len(cases) + n * 4 - 1) // (n * 4)
-    chunks = [cases[i:i + size] for i in range(0, len(cases), size)]
+    # round-robin chunks (heavy block cases sit together at the front of the list), results restored in order
+    nch = min(len(cases), n * 6)
+    idx = [list(range(k, len(cases), nch)) for k in range(nch)]
     ctx = mp.get_context('fork')
     with ctx.Pool(n) as pool:
-        outs = pool.map(_worker, [(mod.__name__, c) for c in chunks])
-    return [r for o in outs for r in o]
+        outs = pool.map(_worker, [(mod.__name__, [cases[i] for i in ix]) for ix in idx], chunksize=1)
+    res = [None] * len(cases)
+    for ix, o in zip(idx, outs):
+        for i, r in zip(ix, o):
+            res[i] = r
+    return res
 
 
 def shrink(mod, case, key, budget=400):
